@@ -293,7 +293,9 @@ Section LSpec.
   Definition comp_ok (t : Z) (p : nat) (c : comp) : Prop :=
     py_pos (length (status (c_st c))) t = Some p /\ length (iters (c_st c)) = length (status (c_st c)).
   Definition subs_ok (t : Z) (p : nat) (l : list (sid * comp)) : Prop := Forall (fun ic => comp_ok t p (snd ic)) l.
-  Definition wf (t : Z) (p : nat) (s : lstate) : Prop := comp_ok t p (l_core s) /\ subs_ok t p (l_subs s).
+  (* no submodel is keyed '_' (Linker.us_id): otherwise its check values replace the linker's own in get_check_values *)
+  Definition no_us (l : list (sid * comp)) : Prop := Forall (fun ic => fst ic <> us_id) l.
+  Definition wf (t : Z) (p : nat) (s : lstate) : Prop := comp_ok t p (l_core s) /\ subs_ok t p (l_subs s) /\ no_us (l_subs s).
   Definition known (ids : list sid) (l : list (sid * comp)) : Prop := forall id, In id ids -> find_sub id l <> None.
 
   Lemma comp_ok_crel t p c c' : crel c c' -> comp_ok t p c -> comp_ok t p c'.
@@ -304,7 +306,16 @@ Section LSpec.
     constructor; [eapply comp_ok_crel; eauto|apply IH; assumption].
   Qed.
   Lemma wf_srel ids t p s s' : srel ids s s' -> wf t p s -> wf t p s'.
-  Proof. intros (R1 & R2 & _) [H1 H2]. split; [eapply comp_ok_crel; eauto|eapply subs_ok_F2; eauto]. Qed.
+  Proof.
+    intros (R1 & R2 & _) (H1 & H2 & H3). split; [eapply comp_ok_crel; eauto|]. split; [eapply subs_ok_F2; eauto|].
+    clear - R2 H3. induction R2 as [|a b l l' [E _] _ IH]; [constructor|]. inversion H3 as [|? ? Ha Hl]; subst.
+    constructor; [rewrite <- E; exact Ha|apply IH; exact Hl].
+  Qed.
+  Lemma no_us_shadow ids s : no_us (l_subs s) -> us_shadow num ids s = false.
+  Proof.
+    intros H. unfold Linker.us_shadow. apply andb_false_iff. right. apply not_true_is_false. intros E.
+    apply existsb_exists in E as (ic & Hi & Hk). apply Nat.eqb_eq in Hk. unfold no_us in H. rewrite Forall_forall in H. exact (H ic Hi Hk).
+  Qed.
   Lemma known_F2 ids l l' : Forall2 prel l l' -> known ids l -> known ids l'.
   Proof.
     intros HF Hk id Hi. specialize (Hk id Hi). pose proof (F2_find num l l' id HF) as H.
@@ -328,7 +339,8 @@ Section LSpec.
   Qed.
   Lemma gcv_wf ids t p s : wf t p s -> get_check_values ids t s = inl (check_vec ids p s).
   Proof.
-    intros [Hc Hs]. unfold Linker.get_check_values, check_vec. rewrite (comp_check_ok t p _ Hc).
+    intros (Hc & Hs & Hnu). unfold Linker.get_check_values, check_vec. rewrite (comp_check_ok t p _ Hc), (no_us_shadow ids s Hnu).
+    clear Hnu.
     assert (H : subs_check ids t (l_subs s) =
                 inl (map (fun ic => check_of p (snd ic)) (filter (fun ic => selected ids (fst ic)) (l_subs s)))).
     { induction Hs as [|[i x] r Hx _ IH]; cbn [Linker.subs_check filter map fst snd]; [reflexivity|].
@@ -442,7 +454,7 @@ Section LSpec.
                   option_map (fun si => (if selected ids id then stamp_l t x (fst si) else fst si, snd si)) (view id (l_subs s))) /\
       (forall id, vview id (l_subs s') = vview id (l_subs s)).
   Proof.
-    intros [Hc Hs] Hk. cbn [Linker.lfinish]. rewrite (set_status_ok t p _ x Hc).
+    intros (Hc & Hs & _) Hk. cbn [Linker.lfinish]. rewrite (set_status_ok t p _ x Hc).
     match goal with |- context [set_iter ?c1 t ?v] => assert (Hc1 : comp_ok t p c1) end.
     { destruct Hc as [H1 H2]. split; cbn [c_st status iters]; rewrite upd_length; assumption. }
     rewrite (set_iter_ok t p _ (Z.of_nat k) Hc1). cbn [c_desc c_st vals_of status iters log].
@@ -549,7 +561,7 @@ Section LSpec.
     cbn [option_map fst snd] in A5. unfold view in A5.
     destruct (find_sub id (l_subs s')) as [c'|]; [|discriminate]. exists c'. split; [reflexivity|].
     cbn [option_map] in A5. inversion A5 as [[B1 B2]]. clear A5.
-    destruct Hwf as [_ Hsub]. destruct (find_sub_ok t p id _ c Hsub Hf) as [Hp1 Hp2].
+    destruct Hwf as (_ & Hsub & _). destruct (find_sub_ok t p id _ c Hsub Hf) as [Hp1 Hp2].
     destruct (selected ids id) eqn:Es.
     - split; [rewrite B1; apply stamp_l_pos; exact Hp1|].
       assert (Hpi : py_pos (length (iters (c_st c))) t = Some p) by (rewrite Hp2; exact Hp1).
@@ -733,7 +745,7 @@ Section LSpec.
           nth_error (status (c_st c')) p = Some x /\
           nth_error (iters (c_st c')) p = Some (Z.of_nat (k * cnt id ids)) /\
           (NoDup ids -> nth_error (iters (c_st c')) p = nth_error (iters (c_st (l_core (fst r)))) p)).
-    { intros x k E1 E2 E3. destruct Hwf as [Hc Hs]. destruct (Hlt _ Hc) as [L1 L2].
+    { intros x k E1 E2 E3. destruct Hwf as (Hc & Hs & _). destruct (Hlt _ Hc) as [L1 L2].
       rewrite E1, E2. split; [apply nth_error_upd_eq; exact L1|]. split; [apply nth_error_upd_eq; exact L2|].
       intros id Hi. destruct (find_sub id (l_subs s)) as [c|] eqn:Ef; [|exfalso; apply (Hknown id Hi); exact Ef].
       destruct (E3 id c Ef) as (c' & F & S1 & S2). exists c'. split; [exact F|].
